@@ -36,6 +36,18 @@ type scase struct {
 	Op string `json:"op"`
 	D  string `json:"d"`
 	L  string `json:"l"`
+	// B names the absolute instant that model time 0 is mapped to for the mode operations ("" = an
+	// ordinary instant in 2023; "zero" = the zero time.Time 0001-01-01T00:00:00Z; "unix" = the Unix
+	// epoch, whose Timestamp proto has all fields zero). The operations must not depend on it.
+	B string `json:"b,omitempty"`
+}
+
+// key identifies the case (request line plus the epoch family when it is not the default).
+func (c scase) key() string {
+	if c.B == "" {
+		return c.line()
+	}
+	return c.line() + " @" + c.B
 }
 
 func (c scase) line() string {
@@ -180,8 +192,25 @@ func showMds(ms []md) string {
 
 // ---- real protobuf values ---------------------------------------------------------------------
 
-// base is the instant that model time 0 maps to (any instant far from the zero time.Time works).
-var base = time.Unix(1_700_000_000, 0).UTC()
+// base is the instant that model time 0 maps to. The default is an ordinary instant; the epoch
+// families put it on the two distinguished instants of the libraries involved, so that start times
+// and query times AT those instants (and just before/after) are exercised: nothing in the property
+// depends on where on the absolute timeline a mode sits.
+var bases = map[string]time.Time{
+	"":     time.Unix(1_700_000_000, 0).UTC(),
+	"zero": {},                      // time.Time{}: IsZero() is true exactly here
+	"unix": time.Unix(0, 0).UTC(), // timestamppb.Timestamp{} (seconds 0, nanos 0)
+}
+
+var base = bases[""]
+
+func (c scase) useBase() {
+	b, ok := bases[c.B]
+	if !ok {
+		panic("unknown epoch family " + c.B)
+	}
+	base = b
+}
 
 func at(ns int64) time.Time { return base.Add(time.Duration(ns)) }
 
@@ -345,6 +374,7 @@ func mustInt(s string) int64 {
 }
 
 func (c scase) runCode() (o outcome) {
+	c.useBase()
 	panicked, msg := lib.Catch(func() {
 		switch c.Op {
 		case "active", "magat", "maxafter", "shift":
@@ -979,6 +1009,7 @@ func droppedTail(result []*traits.ElectricMode_Segment, t, want, atInfinity int6
 // safeMonitor runs the monitor; if evaluating the real MagnitudeAt on a result blows up (e.g. a nil
 // element in a returned list) that is a violation of the property, not a crash of the harness.
 func (c scase) safeMonitor(m *lib.Monitor, o outcome) {
+	c.useBase()
 	panicked, msg := lib.Catch(func() { c.monitor(m, o) })
 	if panicked {
 		m.Violate("C18/"+opName[c.Op]+"/result-unusable", "the result of the operation cannot be read as a step function (MagnitudeAt panics on it)", c, "a well-formed result", o.text+" -> panic: "+msg)
@@ -1173,39 +1204,58 @@ func randMd(r *rand.Rand, noStart bool) md {
 	return m
 }
 
+// randEpoch: where model time 0 sits for a mode case (1/5 the zero time.Time, 1/10 the Unix epoch).
+func randEpoch(r *rand.Rand) string {
+	switch r.Intn(10) {
+	case 0, 1:
+		return "zero"
+	case 2:
+		return "unix"
+	}
+	return ""
+}
+
 func randSegCase(r *rand.Rand) scase {
+	c := randSegCase0(r)
+	if strings.HasPrefix(c.Op, "m") && c.Op != "max" && c.Op != "magat" && c.Op != "maxafter" {
+		c.B = randEpoch(r)
+	}
+	return c
+}
+
+func randSegCase0(r *rand.Rand) scase {
 	itoa := func(x int64) string { return strconv.FormatInt(x, 10) }
 	switch r.Intn(17) {
 	case 0:
 		l := randSgs(r)
-		return scase{"active", itoa(aroundBreakpoints(r, l)), showSgs(l)}
+		return scase{"active", itoa(aroundBreakpoints(r, l)), showSgs(l), ""}
 	case 1:
 		l := randSgs(r)
-		return scase{"magat", itoa(aroundBreakpoints(r, l)), showSgs(l)}
+		return scase{"magat", itoa(aroundBreakpoints(r, l)), showSgs(l), ""}
 	case 2:
 		l := randSgs(r)
-		return scase{"maxafter", itoa(aroundBreakpoints(r, l)), showSgs(l)}
+		return scase{"maxafter", itoa(aroundBreakpoints(r, l)), showSgs(l), ""}
 	case 3:
-		return scase{"dur", "", showSgs(randSgs(r))}
+		return scase{"dur", "", showSgs(randSgs(r)), ""}
 	case 4:
 		op := "max"
 		if r.Intn(4) == 0 {
 			op = "summag"
 		}
-		return scase{op, "", showSgs(randSgs(r))}
+		return scase{op, "", showSgs(randSgs(r)), ""}
 	case 5:
 		s := randSg(r)
 		if r.Intn(4) == 0 {
 			s.inf, s.len = true, 0
 		}
-		return scase{"cut", itoa(s.len + int64(r.Intn(9)) - 6), showSg(s)}
+		return scase{"cut", itoa(s.len + int64(r.Intn(9)) - 6), showSg(s), ""}
 	case 6, 7:
 		l := randSgs(r)
 		d := aroundBreakpoints(r, l)
 		if r.Intn(2) == 0 {
 			d = -d
 		}
-		return scase{"shift", itoa(d), showSgs(l)}
+		return scase{"shift", itoa(d), showSgs(l), ""}
 	case 8, 9, 10:
 		n := 1 + r.Intn(4)
 		if r.Intn(25) == 0 {
@@ -1215,28 +1265,28 @@ func randSegCase(r *rand.Rand) scase {
 		for i := range ls {
 			ls[i] = randSgs(r)
 		}
-		return scase{"sum", "", showSgLists(ls)}
+		return scase{"sum", "", showSgLists(ls), ""}
 	case 11:
 		m := randMd(r, false)
 		op := []string{"mactive", "mmagat", "mmaxafter"}[r.Intn(3)]
-		return scase{op, itoa(m.start + aroundBreakpoints(r, m.segs)), showMd(m)}
+		return scase{op, itoa(m.start + aroundBreakpoints(r, m.segs)), showMd(m), ""}
 	case 12, 13:
 		m := randMd(r, false)
-		return scase{"mcut", itoa(m.start + aroundBreakpoints(r, m.segs)), showMd(m)}
+		return scase{"mcut", itoa(m.start + aroundBreakpoints(r, m.segs)), showMd(m), ""}
 	case 14:
 		m := randMd(r, false)
 		d := aroundBreakpoints(r, m.segs)
 		if r.Intn(2) == 0 {
 			d = -d
 		}
-		return scase{"mshift", itoa(d), showMd(m)}
+		return scase{"mshift", itoa(d), showMd(m), ""}
 	case 15:
 		n := r.Intn(5)
 		ms := make([]md, n)
 		for i := range ms {
 			ms[i] = randMd(r, false)
 		}
-		return scase{"mminat", itoa(int64(r.Intn(12)) - 2), showMds(ms)}
+		return scase{"mminat", itoa(int64(r.Intn(12)) - 2), showMds(ms), ""}
 	default:
 		n := 1 + r.Intn(4)
 		if r.Intn(25) == 0 {
@@ -1247,7 +1297,7 @@ func randSegCase(r *rand.Rand) scase {
 		for i := range ms {
 			ms[i] = randMd(r, noStart)
 		}
-		return scase{"msum", "", showMds(ms)}
+		return scase{"msum", "", showMds(ms), ""}
 	}
 }
 
@@ -1313,24 +1363,24 @@ func randHugeCase(r *rand.Rand) scase {
 	l := randHugeSgs(r)
 	switch r.Intn(8) {
 	case 0:
-		return scase{"active", itoa(randHugeD(r, l)), showSgs(l)}
+		return scase{"active", itoa(randHugeD(r, l)), showSgs(l), ""}
 	case 1:
-		return scase{"magat", itoa(randHugeD(r, l)), showSgs(l)}
+		return scase{"magat", itoa(randHugeD(r, l)), showSgs(l), ""}
 	case 2:
-		return scase{"maxafter", itoa(randHugeD(r, l)), showSgs(l)}
+		return scase{"maxafter", itoa(randHugeD(r, l)), showSgs(l), ""}
 	case 3:
-		return scase{"dur", "", showSgs(l)}
+		return scase{"dur", "", showSgs(l), ""}
 	case 4:
 		s := l[0]
-		return scase{"cut", itoa(randHugeD(r, l[:1])), showSg(s)}
+		return scase{"cut", itoa(randHugeD(r, l[:1])), showSg(s), ""}
 	case 5, 6:
-		return scase{"shift", itoa(randHugeD(r, l)), showSgs(l)}
+		return scase{"shift", itoa(randHugeD(r, l)), showSgs(l), ""}
 	default:
 		ls := [][]sg{l}
 		if r.Intn(2) == 0 {
 			ls = append(ls, randHugeSgs(r))
 		}
-		return scase{"sum", "", showSgLists(ls)}
+		return scase{"sum", "", showSgLists(ls), ""}
 	}
 }
 
@@ -1345,7 +1395,7 @@ func runSeg(f lib.Flags, res *lib.Result, drv *lib.Driver) {
 	k2 := res.Tie("segments-exhaustive-small", "K2",
 		"all lists of <=3 segments over mag {-1,0,1,2} x len {0,1,2,absent}: Duration, Max, SumMagnitude on each; ActiveAt, MagnitudeAt, MaxAfter, Shift for every d in -1..total+1 (Shift also -d); "+
 			"Cut of every segment at d in -1..4; Sum of all ordered pairs of lists of <=2 segments (quick) / plus all triples of lists of <=1 segment and pairs (<=3, <=1) (thorough); "+
-			"modepb read/Cut/Shift on lists of <=2 segments x start in {absent,0,2} x t in -1..total+3 (d in -3..3), modepb.Sum of all pairs of lists of <=1 segment and all triples over {e, 1/1, 2/i}, each x starts {absent,0,2}, modepb.MinAt of all pairs of lists of <=1 segment x t in -1..4 (the returned mode is compared only when the minimum is unique: it depends on map iteration order otherwise); distinct = distinct request line; non-trivial = some list non-empty")
+			"modepb read/Cut/Shift on lists of <=2 segments x start in {absent,0,2} x t in -1..total+3 (d in -3..3), modepb.Sum of all pairs of lists of <=1 segment and all triples over {e, 1/1, 2/i}, each x starts {absent,0,2}, modepb.MinAt of all pairs of lists of <=1 segment x t in -1..4 (the returned mode is compared only when the minimum is unique: it depends on map iteration order otherwise); the mode families again (lists of <=1 segment for read/Cut/Shift) with model time 0 placed on the zero time.Time and on the Unix epoch (start and query times at, before and after those instants); distinct = distinct request line + epoch; non-trivial = some list non-empty")
 	k2.Exhaustive = true
 	var cases []scase
 	l3 := smallLists(3)
@@ -1353,98 +1403,105 @@ func runSeg(f lib.Flags, res *lib.Result, drv *lib.Driver) {
 	l1 := smallLists(1)
 	for _, l := range l3 {
 		s := showSgs(l)
-		cases = append(cases, scase{"dur", "", s}, scase{"max", "", s}, scase{"summag", "", s})
+		cases = append(cases, scase{"dur", "", s, ""}, scase{"max", "", s, ""}, scase{"summag", "", s, ""})
 		_, end, _ := spans(l)
 		for d := int64(-1); d <= end+1; d++ {
-			cases = append(cases, scase{"active", itoa(d), s}, scase{"magat", itoa(d), s}, scase{"maxafter", itoa(d), s}, scase{"shift", itoa(d), s})
+			cases = append(cases, scase{"active", itoa(d), s, ""}, scase{"magat", itoa(d), s, ""}, scase{"maxafter", itoa(d), s, ""}, scase{"shift", itoa(d), s, ""})
 			if d > 0 {
-				cases = append(cases, scase{"shift", itoa(-d), s})
+				cases = append(cases, scase{"shift", itoa(-d), s, ""})
 			}
 		}
 	}
 	for _, l := range l1 {
 		if len(l) == 1 {
 			for d := int64(-1); d <= 4; d++ {
-				cases = append(cases, scase{"cut", itoa(d), showSg(l[0])})
+				cases = append(cases, scase{"cut", itoa(d), showSg(l[0]), ""})
 			}
 		}
 	}
 	for _, a := range l2 {
 		for _, b := range l2 {
-			cases = append(cases, scase{"sum", "", showSgLists([][]sg{a, b})})
+			cases = append(cases, scase{"sum", "", showSgLists([][]sg{a, b}), ""})
 		}
 	}
 	if f.Thorough() {
 		for _, a := range l1 {
 			for _, b := range l1 {
 				for _, c := range l1 {
-					cases = append(cases, scase{"sum", "", showSgLists([][]sg{a, b, c})})
+					cases = append(cases, scase{"sum", "", showSgLists([][]sg{a, b, c}), ""})
 				}
 			}
 		}
 		for _, a := range l3 {
 			for _, b := range l1 {
-				cases = append(cases, scase{"sum", "", showSgLists([][]sg{a, b})}, scase{"sum", "", showSgLists([][]sg{b, a})})
+				cases = append(cases, scase{"sum", "", showSgLists([][]sg{a, b}), ""}, scase{"sum", "", showSgLists([][]sg{b, a}), ""})
 			}
 		}
 	}
 	starts := []md{{}, {hasStart: true, start: 0}, {hasStart: true, start: 2}}
-	for _, l := range l2 {
-		_, end, _ := spans(l)
-		for _, st := range starts {
-			mo := md{hasStart: st.hasStart, start: st.start, segs: l}
-			s := showMd(mo)
-			for x := int64(-1); x <= mo.start+end+3; x++ {
-				cases = append(cases, scase{"mactive", itoa(x), s}, scase{"mmagat", itoa(x), s}, scase{"mmaxafter", itoa(x), s}, scase{"mcut", itoa(x), s})
-			}
-			for d := int64(-3); d <= 3; d++ {
-				cases = append(cases, scase{"mshift", itoa(d), s})
-			}
-		}
-	}
-	for _, a := range l1 {
-		for _, b := range l1 {
-			for _, sa := range starts {
-				for _, sb := range starts {
-					ms := []md{{sa.hasStart, sa.start, a}, {sb.hasStart, sb.start, b}}
-					cases = append(cases, scase{"msum", "", showMds(ms)})
-				}
-			}
-		}
-	}
-	for _, a := range l1 {
-		for _, b := range l1 {
-			for _, sb := range starts {
-				ms := []md{{true, 0, a}, {sb.hasStart, sb.start, b}}
-				for x := int64(-1); x <= 4; x++ {
-					cases = append(cases, scase{"mminat", itoa(x), showMds(ms)})
-				}
-			}
-		}
-	}
-	cases = append(cases, scase{"mminat", "0", "none"})
 	tiny := [][]sg{nil, {{mag: 1, len: 1}}, {{mag: 2, inf: true}}}
-	for _, a := range tiny {
-		for _, b := range tiny {
-			for _, c := range tiny {
+	// the mode operations, for one epoch family: the reading operations, Cut and Shift on `lists`, Sum of
+	// all pairs over l1 and all triples over `tiny`, MinAt of all pairs over l1
+	modeCases := func(B string, lists [][]sg) {
+		for _, l := range lists {
+			_, end, _ := spans(l)
+			for _, st := range starts {
+				mo := md{hasStart: st.hasStart, start: st.start, segs: l}
+				s := showMd(mo)
+				for x := int64(-1); x <= mo.start+end+3; x++ {
+					cases = append(cases, scase{"mactive", itoa(x), s, B}, scase{"mmagat", itoa(x), s, B}, scase{"mmaxafter", itoa(x), s, B}, scase{"mcut", itoa(x), s, B})
+				}
+				for d := int64(-3); d <= 3; d++ {
+					cases = append(cases, scase{"mshift", itoa(d), s, B})
+				}
+			}
+		}
+		for _, a := range l1 {
+			for _, b := range l1 {
 				for _, sa := range starts {
 					for _, sb := range starts {
-						for _, sc := range starts {
-							ms := []md{{sa.hasStart, sa.start, a}, {sb.hasStart, sb.start, b}, {sc.hasStart, sc.start, c}}
-							cases = append(cases, scase{"msum", "", showMds(ms)})
+						ms := []md{{sa.hasStart, sa.start, a}, {sb.hasStart, sb.start, b}}
+						cases = append(cases, scase{"msum", "", showMds(ms), B})
+					}
+				}
+			}
+		}
+		for _, a := range l1 {
+			for _, b := range l1 {
+				for _, sb := range starts {
+					ms := []md{{true, 0, a}, {sb.hasStart, sb.start, b}}
+					for x := int64(-1); x <= 4; x++ {
+						cases = append(cases, scase{"mminat", itoa(x), showMds(ms), B})
+					}
+				}
+			}
+		}
+		cases = append(cases, scase{"mminat", "0", "none", B})
+		for _, a := range tiny {
+			for _, b := range tiny {
+				for _, c := range tiny {
+					for _, sa := range starts {
+						for _, sb := range starts {
+							for _, sc := range starts {
+								ms := []md{{sa.hasStart, sa.start, a}, {sb.hasStart, sb.start, b}, {sc.hasStart, sc.start, c}}
+								cases = append(cases, scase{"msum", "", showMds(ms), B})
+							}
 						}
 					}
 				}
 			}
 		}
 	}
+	modeCases("", l2)
+	modeCases("zero", l1)
+	modeCases("unix", l1)
 	compareSeg(k2, mon, drv, cases)
 
 	// K1: the property's random domain
 	k1 := res.Tie("segments-random", "K1",
 		"random lists of 0-6 segments (magnitudes -3..4 with extra zeros, lengths 0..5, a final length-less segment in 1/3 of the lists, rarely one in the middle), "+
-			"1-4 lists per Sum (rarely 0), d/t at a breakpoint or one ns either side (negated half the time for Shift), modes with (3/4) and without start times, 1-4 modes per modepb.Sum; "+
-			"distinct = distinct request line; non-trivial = some list non-empty")
+			"1-4 lists per Sum (rarely 0), d/t at a breakpoint or one ns either side (negated half the time for Shift), modes with (3/4) and without start times, 1-4 modes per modepb.Sum, model time 0 of a mode case on an ordinary instant (7/10), the zero time.Time (1/5) or the Unix epoch (1/10); "+
+			"distinct = distinct request line + epoch; non-trivial = some list non-empty")
 	r := lib.NewRand(f.Seed + 18)
 	n := f.N(60000, 1500000)
 	cases = cases[:0]
@@ -1535,23 +1592,23 @@ func runSegFloat(f lib.Flags, res *lib.Result, drv *lib.Driver, mon *lib.Monitor
 			switch r.Intn(8) {
 			case 0:
 				l := randFloatSgs(r, fam)
-				ls, c = [][]sg{l}, scase{"summag", "", showSgs(l)}
+				ls, c = [][]sg{l}, scase{"summag", "", showSgs(l), ""}
 			case 1:
 				l := randFloatSgs(r, fam)
-				ls, c = nil, scase{"max", "", showSgs(l)}
+				ls, c = nil, scase{"max", "", showSgs(l), ""}
 			case 2:
 				l := randFloatSgs(r, fam)
-				ls, c = nil, scase{"shift", itoa(aroundBreakpoints(r, l) * int64(1-2*r.Intn(2))), showSgs(l)}
+				ls, c = nil, scase{"shift", itoa(aroundBreakpoints(r, l) * int64(1-2*r.Intn(2))), showSgs(l), ""}
 			case 3:
 				l := randFloatSgs(r, fam)
-				ls, c = nil, scase{"magat", itoa(aroundBreakpoints(r, l)), showSgs(l)}
+				ls, c = nil, scase{"magat", itoa(aroundBreakpoints(r, l)), showSgs(l), ""}
 			default:
 				m := 1 + r.Intn(3)
 				ls = make([][]sg, m)
 				for j := range ls {
 					ls[j] = randFloatSgs(r, fam)
 				}
-				c = scase{"sum", "", showSgLists(ls)}
+				c = scase{"sum", "", showSgLists(ls), ""}
 			}
 			cases = append(cases, c)
 			lists = append(lists, ls)
@@ -1588,7 +1645,7 @@ func runSegFloat(f lib.Flags, res *lib.Result, drv *lib.Driver, mon *lib.Monitor
 				for j := range rev {
 					rev[j] = lists[i][len(rev)-1-j]
 				}
-				o2 := scase{"sum", "", showSgLists(rev)}.runCode()
+				o2 := scase{"sum", "", showSgLists(rev), ""}.runCode()
 				if o2.text != o.text {
 					k.Count(famName + "/unsafe: Sum depends on the order of its argument lists")
 				} else {
@@ -1633,8 +1690,11 @@ func compareSeg(t *lib.Tie, mon *lib.Monitor, drv *lib.Driver, cases []scase) {
 		}
 		for i, c := range part {
 			o := c.runCode()
-			key := lines[i]
+			key := c.key()
 			nontrivial := strings.ContainsAny(c.L, "/")
+			if c.B != "" {
+				t.Count("epoch=" + c.B)
+			}
 			t.Count(c.Op)
 			if c.Op == "sum" || c.Op == "msum" {
 				t.Count(fmt.Sprintf("%s/lists=%d", c.Op, strings.Count(c.L, ";")+1))
